@@ -145,6 +145,7 @@ func (ex *Exec) callByKey(fr *Frame, key string, callee *ssa.Function, args, bin
 			ex.unsupp("cannot inline %s (depth/recursion) and it has no contract", key)
 		}
 		ex.inlined[key] = true
+		ex.pendingN = ex.iterAt(fr, site)
 		ex.execFunc(callee, args, bindings, st, fr, func(st *State, r Value) {
 			k(st, r)
 		})
@@ -159,6 +160,26 @@ func (ex *Exec) callByKey(fr *Frame, key string, callee *ssa.Function, args, bin
 	ex.unknownExt[key] = true
 	ex.havocAll(st)
 	k(st, ex.freshValue(st, resT, "ext"))
+}
+
+// iterAt: the iteration count of the innermost loop around instruction at, in fr or - when fr's
+// function has no loop there - around the call site fr was inlined at.
+func (ex *Exec) iterAt(fr *Frame, at ssa.Instruction) *Value {
+	if at != nil && at.Block() != nil {
+		li := loopsOf(fr.fn)
+		var inner *ssa.BasicBlock
+		for h, body := range li.body {
+			if body[at.Block()] && (inner == nil || len(body) < len(li.body[inner])) {
+				inner = h
+			}
+		}
+		if inner != nil {
+			if nv, ok := iterCount(inner, func(p *ssa.Phi) (Value, bool) { v, ok := fr.vals[p]; return v, ok }); ok {
+				return &nv
+			}
+		}
+	}
+	return fr.outerN
 }
 
 func contains(xs []string, x string) bool {
@@ -241,6 +262,17 @@ func (ex *Exec) builtin(fr *Frame, st *State, site ssa.Instruction, b *ssa.Built
 			}
 			return Value{T: common.Args[0].Type(), L: []*Term{r}}
 		}
+	case "SliceData":
+		// unsafe.SliceData(b): pointer to the first element of b's array
+		if sl, ok := common.Args[0].Type().Underlying().(*types.Slice); ok {
+			b := args[0]
+			return Value{T: types.NewPointer(sl.Elem()), Loc: &Loc{Kind: "elem", Obj: b.Arr(), Idx: b.Off(), T: sl.Elem()}}
+		}
+	case "String":
+		// unsafe.String(p, n): the string aliasing n bytes at p
+		if p := args[0]; p.Loc != nil && p.Loc.Kind == "elem" {
+			return ex.stringView(st, p.Loc.Obj, p.Loc.Idx, args[1].L[0], tString)
+		}
 	case "recover":
 		return zeroValue(anyType)
 	case "delete":
@@ -290,9 +322,19 @@ func (ex *Exec) builtinAppend(fr *Frame, st *State, site ssa.Instruction, common
 	newCap := ex.freshVar("appcap", SInt)
 	// trusted: Go's append over-allocates by at most a factor of two plus size-class rounding
 	st.assume(And(Ge(newCap, newLen), Le(newCap, Add(Mul(Int(2), newLen), Int(64)))))
-	rArr := Ite(fits, s.Arr(), freshArr)
-	rOff := Ite(fits, s.Off(), Int(0))
-	rCap := Ite(fits, s.Cap(), newCap)
+	// the header of the result is named: chains of appends otherwise nest their case
+	// distinctions (fits / reallocates) into terms of exponential printed size
+	force := func(t *Term) *Term {
+		if t.Op == "ite" {
+			v := ex.freshVar("app", t.Sort)
+			st.assume(Eq(v, t))
+			return v
+		}
+		return t
+	}
+	rArr := force(Ite(fits, s.Arr(), freshArr))
+	rOff := force(Ite(fits, s.Off(), Int(0)))
+	rCap := force(Ite(fits, s.Cap(), newCap))
 	// when not fitting: copy old prefix to the fresh array
 	st.regionWrite(freshArr, Int(0), Ite(fits, Int(0), s.Len()), elem, func(l Leaf, idx *Term) *Term {
 		return snap[l.Path].read(s.Arr(), Add(s.Off(), idx))
@@ -302,8 +344,12 @@ func (ex *Exec) builtinAppend(fr *Frame, st *State, site ssa.Instruction, common
 	st.regionWrite(rArr, lo, Add(lo, n), elem, func(l Leaf, idx *Term) *Term {
 		return snap[l.Path].read(t.Arr(), Add(t.Off(), Sub(idx, lo)))
 	})
-	st.Ghost["maxalloc"] = Ite(fits, st.ghost("maxalloc", SInt), Max(st.ghost("maxalloc", SInt), Mul(newCap, Int(sizeofElem(elem)))))
-	st.Dirty["G:maxalloc"] = true
+	if newLen.IsInt() && newLen.Int.IsInt64() && (2*newLen.Int.Int64()+64)*sizeofElem(elem) <= 4096 {
+		// growth of a slice of compile-time constant length: a constant-size allocation (not tracked)
+	} else {
+		st.Ghost["maxalloc"] = Ite(fits, st.ghost("maxalloc", SInt), Max(st.ghost("maxalloc", SInt), Mul(newCap, Int(sizeofElem(elem)))))
+		st.Dirty["G:maxalloc"] = true
+	}
 	// nil stays nil only if nothing appended and s nil: arr 0 with n==0 && fits
 	return sliceVal(st0, rArr, rOff, newLen, rCap)
 }
@@ -831,6 +877,15 @@ func (ex *Exec) checkCallsite(fr *Frame, key string, callee *ssa.Function, args 
 		return
 	}
 	env := ex.localEnv(fr, st, site)
+	if !fr.top && ex.topFr != nil {
+		// the call sits in a helper inlined into the function under contract: the clause may
+		// also name parameters of that function
+		for k, v := range ex.baseEnv(ex.topFr, st).vars {
+			if _, has := env.vars[k]; !has {
+				env.vars[k] = v
+			}
+		}
+	}
 	for i, a := range args {
 		env.vars[fmt.Sprintf("$%d", i)] = a
 	}
@@ -924,22 +979,12 @@ func (ex *Exec) localEnv(fr *Frame, st *State, at ssa.Instruction) *Env {
 			env.vars[name] = v
 		}
 	}
-	// inside a loop body: $n = iterations completed before the current one
-	if at.Block() != nil {
-		li := loopsOf(fr.fn)
-		var inner *ssa.BasicBlock
-		for h, body := range li.body {
-			if body[at.Block()] && (inner == nil || len(body) < len(li.body[inner])) {
-				inner = h
-			}
-		}
-		if inner != nil {
-			if nv, ok := iterCount(inner, func(p *ssa.Phi) (Value, bool) { v, ok := fr.vals[p]; return v, ok }); ok {
-				env.vars["$n"] = nv
-				if _, has := env.vars["$index"]; !has {
-					env.vars["$index"] = Value{T: tInt, L: []*Term{Sub(nv.L[0], Int(1))}}
-				}
-			}
+	// inside a loop body: $n = iterations completed before the current one (for code in an
+	// inlined helper: of the loop around the call it was inlined at)
+	if nv := ex.iterAt(fr, at); nv != nil {
+		env.vars["$n"] = *nv
+		if _, has := env.vars["$index"]; !has {
+			env.vars["$index"] = Value{T: tInt, L: []*Term{Sub(nv.L[0], Int(1))}}
 		}
 	}
 	ex.applyAliases(env, fr.fn)
